@@ -291,6 +291,11 @@ def gen_case(rng):
         nextfd[pid] = fd + rng.choice([1, 1, 1, 2, 7, 100, 1000])
         return fd
 
+    # a descriptor that is listed but closed before it is looked at (ENOENT on its link): the scan must carry on
+    for p in procs:
+        if rng.random() < 0.3:
+            p["noise"].append([new_fd(p["pid"]), "@gone"])
+
     def new_inode():
         while True:
             c = rng.randrange(4)
@@ -672,13 +677,13 @@ def env_ps():
     return _env["ps"]
 
 
-def setup():
+def setup(validate=True):
     if _env:
         return _env
     from vlib import psu, vkernel
     from vlib.proctable import ProcTable
     ps = psu.load()
-    ok, problems = validate_encoder()
+    ok, problems = validate_encoder() if validate else (0, [])
     _env.update(ps=ps, vkernel=vkernel, ProcTable=ProcTable, enc_ok=ok, enc_problems=problems)
     return _env
 
@@ -697,10 +702,13 @@ def build_table(case, env):
             fds[pid][fd] = dict(target="socket:[%d]" % s["inode"], pos=0, flags=0o2)
     for p in case["procs"]:
         for fd, tgt in p["noise"]:
-            fds[p["pid"]][fd] = dict(target=tgt, pos=0, flags=0o2)
+            if tgt == "@gone":
+                fds[p["pid"]][fd] = dict(target="/closed/meanwhile", pos=0, flags=0o2, gone=True)
+            else:
+                fds[p["pid"]][fd] = dict(target=tgt, pos=0, flags=0o2)
     for i, p in enumerate(case["procs"]):
         pr = t.spawn(p["pid"], 100 + i, ppid=1, comm=b"holder%d" % i)
-        pr.fds = fds[p["pid"]]
+        pr.fds = dict(sorted(fds[p["pid"]].items()))        # the kernel lists descriptors in ascending order
         if not p["readable"]:
             pr.overrides["fd"] = vkernel.D([], list_err=PermissionError(13, "Permission denied"))
     for name, data in render_tables(case["socks"]).items():
@@ -1050,12 +1058,19 @@ def plan(tier, seed):
     shards.append(dict(kind="live"))
     for part in range(2 if tier == "quick" else 8):
         shards.append(dict(kind="threads", seed=seed, part=part, count=40 if tier == "quick" else 600))
+    shards.append(dict(kind="gen_no_v6_bind", seed=seed, count=300 if tier == "quick" else 6000))
     return shards
+
+
+def shard_cmd_prefix(shard):
+    # a fresh network namespace: AF_INET6 sockets exist in the tables, but ::1 cannot be bound (lo is down), which is what
+    # psutil's supports_ipv6() probes
+    return ["unshare", "-n"] if "gen_no_v6_bind" in (shard.get("kind"), shard.get("origin")) else []
 
 
 def run_shard(shard):
     acc = harness.Acc()
-    env = setup()
+    env = setup(validate="gen_no_v6_bind" not in (shard.get("kind"), shard.get("origin")))
     acc.count("encoder_live_validations", env["enc_ok"])
     if env["enc_problems"]:
         acc.inconclusive = "generator encoder disagrees with the live kernel: " + "; ".join(env["enc_problems"][:3])
@@ -1070,6 +1085,15 @@ def run_shard(shard):
     elif shard["kind"] == "gen":
         for i in range(shard["start"], shard["start"] + shard["count"]):
             run_case(gen_case(harness.rng_for(shard["seed"], "c11", i)), acc)
+    elif shard["kind"] == "gen_no_v6_bind":
+        from psutil._common import supports_ipv6
+        if supports_ipv6():
+            acc.count("no_v6_bind_skipped")
+            acc.extra["gen_no_v6_bind"] = "skipped: ::1 can be bound here (no private network namespace)"
+        else:
+            for i in range(shard["count"]):
+                run_case(gen_case(harness.rng_for(shard["seed"], "c11nb", i)), acc)
+            acc.count("cases_where_loopback_v6_cannot_be_bound", shard["count"])
     elif shard["kind"] == "threads":
         for i in range(shard["count"]):
             case = gen_case(harness.rng_for(shard["seed"], "c11t", shard["part"], i))
